@@ -248,14 +248,18 @@ fn setter_matrix_cases(o: &mut Out, thorough: bool) {
         let mut ops: Vec<WOp> = vec![];
         let mut c = code;
         for _ in 0..len { ops.push(alphabet[(c % n as u64) as usize].clone()); c /= n as u64; }
-        o.mark(&format!("setters {:?}", ops));
-        let sink = Sink::new(0, None, false);
-        let run = run_writer(&cfg, &ops, sink.clone(), false, &mut rng);
-        o.direct_checks += 1;
-        if let Some(m) = &run.panicked {
-            o.violation(viol("writer-panicked", &format!("writer-panicked: {}", m.chars().take(50).collect::<String>()), vec![("config", jstr(&format!("{:?}", cfg))), ("ops", jstr(&format!("{:?}", ops))), ("why", jstr(m))]));
-        } else if let Some(why) = run.illegal_accepted.first() {
-            o.violation(viol("invalid-frame-parameter-accepted", "invalid-frame-parameter-accepted", vec![("config", jstr(&format!("{:?}", cfg))), ("ops", jstr(&format!("{:?}", ops))), ("why", jstr(why)), ("results", jstr(&run.results.join(" | ")))]));
+        // before the first image (only the canvas rectangle is legal there) and after it (any rectangle inside the canvas)
+        for after_first in [false, true] {
+            let ops: Vec<WOp> = if after_first { let mut v = vec![WOp::Image { stream: None, parts: vec![] }]; v.extend(ops.iter().cloned()); v } else { ops.clone() };
+            o.mark(&format!("setters {:?}", ops));
+            let sink = Sink::new(0, None, false);
+            let run = run_writer(&cfg, &ops, sink.clone(), false, &mut rng);
+            o.direct_checks += 1;
+            if let Some(m) = &run.panicked {
+                o.violation(viol("writer-panicked", &format!("writer-panicked: {}", m.chars().take(50).collect::<String>()), vec![("config", jstr(&format!("{:?}", cfg))), ("ops", jstr(&format!("{:?}", ops))), ("why", jstr(m))]));
+            } else if let Some(why) = run.illegal_accepted.first() {
+                o.violation(viol("invalid-frame-parameter-accepted", "invalid-frame-parameter-accepted", vec![("config", jstr(&format!("{:?}", cfg))), ("ops", jstr(&format!("{:?}", ops))), ("why", jstr(why)), ("results", jstr(&run.results.join(" | ")))]));
+            }
         }
     }
     o.count("setter-matrix");
@@ -264,6 +268,62 @@ fn setter_matrix_cases(o: &mut Out, thorough: bool) {
 
 /// whole-image histories over a sink that starts refusing at a chunk boundary vs Model/WriterFail.v f_history: what every call returns
 /// and which chunks the sink holds
+/// Encoder::with_info with a frame control whose rectangle is not the canvas (larger, empty, a sub-rectangle, offset): an invalid parameter - it
+/// must be refused there, and whatever is accepted must not make a later writer call panic
+fn with_info_frame_cases(o: &mut Out, rng: &mut Rng, thorough: bool) {
+    use std::io::Write;
+    for k in 0..(if thorough { 600 } else { 80 }) {
+        let (w, h) = (rng.range(1, 6) as u32, rng.range(1, 6) as u32);
+        let pickdim = |rng: &mut Rng, full: u32| -> u32 { match rng.below(6) { 0 => 0, 1 => full + rng.range(1, 8) as u32, 2 => full + 1000, 3 => rng.range(1, full as u64) as u32, _ => full } };
+        let (fw, fh) = (pickdim(rng, w), pickdim(rng, h));
+        let (fx, fy) = (if rng.chance(1, 3) { rng.range(0, 3) as u32 } else { 0 }, if rng.chance(1, 3) { rng.range(0, 3) as u32 } else { 0 });
+        let canvas = (fw, fh, fx, fy) == (w, h, 0, 0);
+        let streamed = k % 2 == 0;
+        let sep = k % 5 == 0;
+        o.mark(&format!("with_info frame {}x{}+{}+{} on {}x{} streamed={} sep={}", fw, fh, fx, fy, w, h, streamed, sep));
+        let r = guarded(|| -> Result<String, String> {
+            let mut info = png::Info::with_size(w, h);
+            info.color_type = png::ColorType::Grayscale;
+            info.animation_control = Some(png::AnimationControl { num_frames: 2, num_plays: 0 });
+            let mut fc = png::FrameControl::default();
+            fc.width = fw; fc.height = fh; fc.x_offset = fx; fc.y_offset = fy;
+            info.frame_control = Some(fc);
+            let sink = Sink::new(0, None, false);
+            let mut e = match png::Encoder::with_info(sink.clone(), info) { Ok(e) => e, Err(_) => return Ok("refused".into()) };
+            if sep { let _ = e.set_sep_def_img(true); }
+            let mut wr = e.write_header().map_err(|er| format!("header: {:?}", er))?;
+            let n = (fw as usize).saturating_mul(fh as usize).min(1 << 16);
+            let data = vec![7u8; n];
+            if streamed {
+                let mut sw = wr.stream_writer().map_err(|er| format!("stream writer: {:?}", er))?;
+                let _ = sw.write(&data);
+                let _ = sw.write(&[1u8; 100]);
+                let _ = sw.finish();
+            } else {
+                let _ = wr.write_image_data(&data);
+                let _ = wr.write_image_data(&[]);
+            }
+            let _ = wr.finish();
+            Ok("accepted".into())
+        });
+        o.direct_checks += 1;
+        o.count(if canvas { "with-info-frame.canvas" } else { "with-info-frame.other" });
+        let detail = |why: &str| vec![("why", jstr(why)), ("canvas", jstr(&format!("{}x{}", w, h))), ("frame_control", jstr(&format!("{}x{}+{}+{}", fw, fh, fx, fy))), ("streamed", streamed.to_string())];
+        match r {
+            Err(m) => o.violation(viol("writer-panicked", &format!("writer-panicked: {}", m.chars().take(50).collect::<String>()), detail(&m))),
+            Ok(Ok(res)) => {
+                if res == "accepted" && !canvas {
+                    o.violation(viol("invalid-frame-parameter-accepted", "invalid-frame-parameter-accepted", detail("Encoder::with_info accepted a frame control whose rectangle is not the canvas (the first image must cover the canvas)")));
+                }
+                if res == "refused" && canvas {
+                    o.violation(viol("legal-parameter-refused", "legal-parameter-refused", detail("Encoder::with_info refused a frame control covering the canvas")));
+                }
+            }
+            Ok(Err(_)) => {}
+        }
+    }
+}
+
 fn failing_sink_model_cases(o: &mut Out, rng: &mut Rng, thorough: bool) {
     let kinds_after_header = |bytes: &[u8], header_len: usize| -> Result<Vec<String>, String> {
         // whole chunks only (the sink refuses at chunk boundaries)
@@ -368,6 +428,7 @@ pub fn run(a: &Args) {
     retry_cases(&mut o, &mut rng, thorough);
     keep_going_cases(&mut o, &mut rng, thorough);
     failing_sink_model_cases(&mut o, &mut rng, thorough);
+    with_info_frame_cases(&mut o, &mut rng, thorough);
     for k in 0..(if thorough { 4000 } else { 260 }) {
         let mut cfg = random_cfg(&mut rng, None);
         cfg.validate = k % 2 == 0;
@@ -393,7 +454,7 @@ pub fn run(a: &Args) {
         for plan in plans {
             let sink = match plan { None => sink0.clone(), Some((f, once)) => Sink::new(if k % 3 == 0 { 3 } else { 0 }, Some(f), once) };
             let run = match plan {
-                None => WRun { results: run0.results.clone(), finish: run0.finish.clone(), panicked: run0.panicked.clone(), images: vec![], errors_before_finish: run0.errors_before_finish, illegal_accepted: run0.illegal_accepted.clone() },
+                None => WRun { results: run0.results.clone(), finish: run0.finish.clone(), panicked: run0.panicked.clone(), images: vec![], errors_before_finish: run0.errors_before_finish, illegal_accepted: run0.illegal_accepted.clone(), setter_refusals: run0.setter_refusals },
                 Some(_) => {
                     o.mark(&format!("writer {:?} {:?} finish={} sink-failure={:?}", cfg, ops, finish, plan));
                     run_writer(&cfg, &ops, sink.clone(), finish, &mut Rng(seed_state))
